@@ -154,7 +154,7 @@ func (l *s1Log) snapshot() []s1Ev {
 
 func runS1(t *testing.T, r *rep.Reporter, env instrEnv, ys yieldStats) {
 	// d=0
-	n0 := r.N(800, 120_000)
+	n0 := r.N(8000, 120_000)
 	for i := 0; i < n0; i++ {
 		idx := baseS1d0 + i
 		r.Run(idx, fmt.Sprintf("s1-d0-%d", i), func(c *rep.Case) {
@@ -165,7 +165,7 @@ func runS1(t *testing.T, r *rep.Reporter, env instrEnv, ys yieldStats) {
 		})
 	}
 	// d=1: exhaustive over timewheel.go sites x occurrence 1..4 x repetitions
-	reps1 := r.N(3, 60)
+	reps1 := r.N(6, 60)
 	k := 0
 	for _, site := range env.twSites {
 		for occ := 1; occ <= 4; occ++ {
